@@ -36,6 +36,16 @@ Definition col_eqb (c : collection) (o : col_obs) : bool :=
        (c_errors c) (snd (snd o)).
 Fixpoint cols_eqb (cs : list collection) (os : list col_obs) : bool :=
   match cs, os with [] , [] => true | c :: cs', o :: os' => col_eqb c o && cols_eqb cs' os' | _, _ => false end.
+(* the GENERATED function of every generated operation dispatches exactly the bodies / responses of the model's endpoint:
+   gen : METHOD path -> (Content-Type per request-body branch of _get_kwargs, status per branch of _parse_response), read from the ast *)
+Fixpoint strs_eqb (a b : list str) : bool := match a, b with [], [] => true | x :: a', y :: b' => str_eqb x y && strs_eqb a' b' | _, _ => false end.
+Fixpoint ns_eqb (a b : list N) : bool := match a, b with [], [] => true | x :: a', y :: b' => (x =? y) && ns_eqb a' b' | _, _ => false end.
+Fixpoint find_gen (gen : list (str * (list str * list N))) (k : str) : option (list str * list N) :=
+  match gen with [] => None | (k', v) :: g' => if str_eqb k' k then Some v else find_gen g' k end.
+Definition gen_case (ops : list operation) (gen : list (str * (list str * list N))) : bool :=
+  forallb (fun o => match parse_operation o, find_gen gen (o_key o) with
+                    | Some ep, Some (cts, sts) => strs_eqb (ep_bodies ep) cts && ns_eqb (map snd (ep_responses ep)) sts
+                    | _, _ => true end) ops.
 Definition ops_case (ops : list operation) (obs : list col_obs) : bool :=
   cols_eqb (collections ops) obs && forallb (op_accounted (collections ops)) ops.
 """
@@ -79,6 +89,36 @@ def prefix_docs():
             if order:
                 S = dict(reversed(list(S.items())))
             out.append((f"prefix:{kind}:{order}", {"openapi": "3.1.0", "info": {"title": "t", "version": "1"}, "paths": {}, "components": {"schemas": S}}))
+    return out
+
+
+def same_kind_docs():
+    """operations whose request body has 2-3 media types of the SAME kind with different schemas, alone and mixed with other kinds and
+    with unsupported ones; two form types through content_type_overrides.  (label, document, config)"""
+    S = {"Thing": OBJ({"name": {"type": "string"}}), "ThingPatch": OBJ({"rename": {"type": "string"}}), "ThingApi": OBJ({"data": {"type": "integer"}}),
+         "FormA": OBJ({"a": {"type": "string"}}), "FormB": OBJ({"b": {"type": "integer"}})}
+    ref = lambda n: {"schema": {"$ref": REF + n}}
+    ok = {"200": {"description": "ok"}, "404": {"description": "nf", "content": {"application/json": {"schema": {"$ref": REF + "Thing"}}}}, "204": {"description": "none"}}
+    def doc(paths, rbs=None):
+        d = {"openapi": "3.1.0", "info": {"title": "t", "version": "1"}, "paths": paths, "components": {"schemas": copy.deepcopy(S)}}
+        if rbs:
+            d["components"]["requestBodies"] = rbs
+        return d
+    def opn(oid, content, **kw):
+        return {"operationId": oid, "requestBody": {"content": content}, "responses": copy.deepcopy(ok), **kw}
+    out = []
+    j, mp, va = "application/json", "application/merge-patch+json", "application/vnd.api+json"
+    out.append(("samekind:json2", doc({"/t": {"patch": opn("patchT", {j: ref("Thing"), mp: ref("ThingPatch")})}}), None))
+    out.append(("samekind:json3", doc({"/t": {"put": opn("putT", {j: ref("Thing"), mp: ref("ThingPatch"), va: ref("ThingApi")})}}), None))
+    out.append(("samekind:json2+other", doc({"/t": {"post": opn("postT", {j: ref("Thing"), "multipart/form-data": ref("FormA"), mp: ref("ThingPatch"),
+                                                                           "application/xml": {"schema": {"type": "string"}}, "application/octet-stream": {"schema": {"type": "string", "format": "binary"}}})},
+                                             "/u": {"post": opn("postU", {mp: ref("ThingPatch"), "text/csv": {"schema": {"type": "string"}}, va: ref("ThingApi")}, tags=["b"])}}), None))
+    out.append(("samekind:json-inline", doc({"/t": {"post": opn("inl", {j: {"schema": OBJ({"x": {"type": "string"}})}, va: {"schema": {"type": "array", "items": {"type": "integer"}}}})}}), None))
+    out.append(("samekind:byref", doc({"/t": {"post": {"operationId": "byRef", "requestBody": {"$ref": "#/components/requestBodies/Both"}, "responses": copy.deepcopy(ok)}}},
+                                      rbs={"Both": {"content": {j: ref("Thing"), mp: ref("ThingPatch")}}}), None))
+    ov = {"content_type_overrides": {"application/x-custom-form": "application/x-www-form-urlencoded", "application/x-files": "multipart/form-data"}}
+    out.append(("samekind:form2", doc({"/f": {"post": opn("forms", {"application/x-www-form-urlencoded": ref("FormA"), "application/x-custom-form": ref("FormB")})}}), ov))
+    out.append(("samekind:files2", doc({"/f": {"post": opn("files", {"multipart/form-data": ref("FormA"), "application/x-files": ref("FormB"), j: ref("Thing")})}}), ov))
     return out
 
 
@@ -208,6 +248,9 @@ def gen_census_doc(rng: random.Random, size=None):
             content = {}
             cts = rng.sample(["application/json", "application/xml", "multipart/form-data", "application/x-www-form-urlencoded",
                               "application/octet-stream", "text/csv", "application/vnd.api+json", "garbage"], rng.randint(1, 3))
+            if rng.random() < 0.3:      # two or three media types of the JSON kind
+                cts = rng.sample(["application/json", "application/merge-patch+json", "application/vnd.api+json"], rng.randint(2, 3)) + cts[:1]
+                cts = list(dict.fromkeys(cts))
             for ct in cts:
                 # an inline object only when it is the only media type: inline class names of several bodies of one operation can
                 # coincide (json / +json), which is a naming matter outside this property's oracle for single pieces
@@ -347,7 +390,7 @@ def op_name(path, method, op):
 
 
 # ====================================================================== leaf oracles + observation of the real endpoint loop
-def observe_ops(doc):
+def observe_ops(doc, jcfg=None):
     """returns (operations for Census.v with per-piece outcomes from the real leaf parsers, observation of the real collections)"""
     from openapi_python_client import schema as oai, utils
     from openapi_python_client.parser.openapi import Endpoint, EndpointCollection, GeneratorData
@@ -356,8 +399,7 @@ def observe_ops(doc):
     from openapi_python_client.parser.responses import response_from_data
     from openapi_python_client.parser.bodies import body_from_data
     from http import HTTPStatus
-    config = cfg()
-    data, _ = impl.parse_doc(doc)
+    data, config = impl.parse_doc(doc, cfg=jcfg)
     o = oai.OpenAPI.model_validate(copy.deepcopy(doc))
     schemas = Schemas()
     if o.components and o.components.schemas:
@@ -394,6 +436,10 @@ def observe_ops(doc):
                     resps.append((code, "RFail" if isinstance(rr, ParseError) else f"(ROk {int(st)})"))
                 bl, schemas = body_from_data(data=operation, schemas=schemas, request_bodies=request_bodies, config=config, endpoint_name=name)
                 rb = operation.request_body
+                hops = 0
+                while isinstance(rb, oai.Reference) and hops < 8:      # the media types are those of the resolved request body
+                    rb = request_bodies.get(rb.ref.split("/")[-1])
+                    hops += 1
                 cts = list(rb.content) if isinstance(rb, oai.RequestBody) else ([None] if (rb is not None and bl) else [])
                 if isinstance(rb, oai.RequestBody) and len(bl) != len(cts):
                     bodies = [(ct, "DROPPED") for ct in cts]      # body_from_data returned neither a Body nor an error for some media type
@@ -457,11 +503,12 @@ def c_cols(cols):
 
 # ====================================================================== one document
 def work(job):
-    label, doc, seed = job
-    res = {"label": label, "doc": doc, "problems": [], "terms": [], "stats": {}}
+    label, doc, seed = job[:3]
+    jcfg = job[3] if len(job) > 3 else None
+    res = {"label": label, "doc": doc, "cfg": jcfg, "problems": [], "terms": [], "stats": {}}
     try:
         from openapi_python_client import utils
-        with impl.Gen(doc) as g:
+        with impl.Gen(doc, cfg=jcfg) as g:
             if g.exc is not None:
                 res["raised"] = repr(g.exc)[:300]
                 return res
@@ -583,29 +630,54 @@ def work(job):
                             omitted = [c for c in cs if any(f"status code {c} " in (d or "") for _, d in warned)]
                             if len(cs) - len(omitted) > 1:
                                 res["problems"].append({"kind": "status-alias", "op": key, "codes": cs, "status": st})
-                    # media types: handled by the function, or a body warning of this operation accounts for it (named when the
-                    # warning text carries the media type; property errors of a body schema do not name it: counted)
+                    # media types (requestBody references resolved): each one has its own dispatch branch in the GENERATED _get_kwargs
+                    # (a Content-Type literal; the files kwarg for a lone multipart body), or a warning of this operation names it; a
+                    # warning that names no media type (a property error of the body schema, "Missing schema", "Invalid content
+                    # type") accounts for exactly one media type that is neither handled nor named
                     rb = op.get("requestBody")
+                    hops = 0
+                    while isinstance(rb, dict) and "$ref" in rb and hops < 6:
+                        rb = ((doc.get("components") or {}).get("requestBodies") or {}).get(rb["$ref"].split("/")[-1])
+                        hops += 1
+                    gen_cts = list(info["content_types"])
                     if isinstance(rb, dict) and "content" in rb:
+                        declared = list(rb["content"])
+                        simp = lambda ct: ct.split(";")[0].strip()
                         body_warnings = [d or "" for h, d in warned if "Endpoint will not be generated" not in h
                                          and not (d or "").startswith("Invalid response status code") and not (d or "").startswith("Cannot parse response for status code")]
-                        unhandled = []
-                        for ct in rb["content"]:
-                            handled = ct in info["content_types"] or (ct.split(";")[0].strip() == "multipart/form-data" and "files" in info["body_kwargs"])
-                            if not handled:
-                                unhandled.append(ct)
-                        if len(unhandled) > len(body_warnings):
-                            res["problems"].append({"kind": "media-silent", "op": key, "content_types": unhandled, "warnings": body_warnings})
+                        naming = lambda d: [ct for ct in declared if simp(ct) and simp(ct) in d]
+                        unnamed_warnings = [d for d in body_warnings if not naming(d)]
+                        lone_multipart = (not info["content_types"] and "files" in info["body_kwargs"])
+                        pending = []
+                        for ct in declared:
+                            handled = ct in info["content_types"] or (lone_multipart and simp(ct) == "multipart/form-data")
+                            if handled and lone_multipart and simp(ct) == "multipart/form-data":
+                                gen_cts = [ct]
+                            named = any(ct in naming(d) for d in body_warnings)
+                            if not handled and not named:
+                                pending.append(ct)
+                        if len(pending) > len(unnamed_warnings):
+                            res["problems"].append({"kind": "media-silent", "op": key, "content_types": pending, "generated_branches": info["content_types"],
+                                                    "warnings": body_warnings})
+                    res.setdefault("gen_obs", {})[key] = (gen_cts, list(info["statuses"]))
         for modf, keys in seen_modules.items():
             if len(keys) > 1:
                 res.setdefault("module_clash", []).append((modf, keys))
         # ------------------------------------------------ stage B: the endpoint loop
-        ops, cols, data = observe_ops(doc)
+        ops, cols, data = observe_ops(doc, jcfg)
         if cols is not None:
             if any(x == "DROPPED" for o in ops for _, x in o["bodies"]):
                 res["terms"].append(("ops", "false"))    # body_from_data lost a media type: outside the model's outcome type, a mismatch by definition
             else:
                 res["terms"].append(("ops", f"ops_case [{'; '.join(c_op(o) for o in ops)}] {c_cols(cols)}" if ops else f"ops_case (@nil operation) {c_cols(cols)}"))
+                # the generated functions against the model's endpoints (operations whose module another operation overwrote are
+                # not in gen_obs under their own key: find_gen returns None for them)
+                clashed = {k for _, ks in res.get("module_clash", []) for k in ks}
+                go = [(k, v) for k, v in res.get("gen_obs", {}).items() if k not in clashed]
+                if ops and go:
+                    gl = "[" + "; ".join(f"({cstr(k)}, ({'[' + '; '.join(cstr(c) for c in cts) + ']' if cts else '(@nil str)'}, "
+                                         f"{'[' + '; '.join(str(int(x)) for x in sts) + ']' if sts else '(@nil N)'}))" for k, (cts, sts) in go) + "]"
+                    res["terms"].append(("generated", f"gen_case [{'; '.join(c_op(o) for o in ops)}] {gl}"))
         res["stats"] = {"schemas": len(S), "ops": len(ops), "diags": len(diags), "problems": len(res["problems"])}
     except BaseException as e:  # noqa
         import traceback
@@ -631,7 +703,7 @@ def classify(run, r, p):
     if k == "module-collision":
         if run.known_finding("module_collision_order", f"document {r['label']}: classes {p['classes']} share {p['module']}; {p['lost']} has no class and no diagnostic"):
             return
-    run.violation("oracle", {"label": r["label"], "problem": p, "doc": r["doc"]})
+    run.violation("oracle", {"label": r["label"], "problem": p, "doc": r["doc"], "cfg": r.get("cfg")})
 
 
 def run(run, tier, replay=None):
@@ -640,7 +712,7 @@ def run(run, tier, replay=None):
     jobs = []
     if replay:
         rp = json.load(open(replay))
-        jobs = [(v.get("label", "replay"), v["doc"], 1) for v in rp["violations"] if "doc" in v][:10]
+        jobs = [(v.get("label", "replay"), v["doc"], 1, v.get("cfg")) for v in rp["violations"] if "doc" in v][:10]
     else:
         for l, d in GS.atlas_docs():
             jobs.append(("atlas:" + l, d, 0))
@@ -651,6 +723,8 @@ def run(run, tier, replay=None):
             jobs.append((f"gen_document{i}", GD.gen_document(random.Random(rng.randrange(1 << 30)), pressure=(i % 3 == 0))[0], 0))
         for l, d in prefix_docs():
             jobs.append((l, d, 0))
+        for l, d, c in same_kind_docs():
+            jobs.append((l, d, 0, c))
         # the recorded witnesses
         ok = {"200": {"description": "ok"}}
         jobs.append(("witness:module_overwrite", {"openapi": "3.1.0", "info": {"title": "t", "version": "1"}, "components": {"schemas": {}},
@@ -706,7 +780,7 @@ def run(run, tier, replay=None):
                         "(endpoints and warnings per tag, in order) and op_accounted holds for every operation"}
     for i in bad[:6]:
         r, what = meta[i]
-        run.violation("correspondence", {"label": r["label"], "part": what, "doc": r["doc"], "term": terms[i][:3000],
+        run.violation("correspondence", {"label": r["label"], "part": what, "doc": r["doc"], "cfg": r.get("cfg"), "term": terms[i][:3000],
                                          "note": "the generated tree / diagnostics no longer agree with the model for which C07's accounting theorems are proved"})
     run.extra["documents"] = len(results)
     run.extra["raised"] = sum(1 for r in results if r.get("raised"))
